@@ -158,3 +158,68 @@ func (u *Unit) literalValue(st *State, lit *ast.FuncLit, id string) {
 		return u.eval(s2, ret.Results[0]), true
 	})
 }
+
+// closureMeaning: a variable that holds exactly one function literal whose contract is `pure`
+// denotes a function value with the literal's contract:
+//     forall xs :: requires(xs) ==> ensures(xs, apply(v, xs))
+// (the literal itself is verified against that contract as a unit of its own; inside its own
+// body this is the induction hypothesis for recursive uses, termination not proved).
+func (u *Unit) closureMeaning(st *State, o *types.Var, v Val) {
+	lit, ok := u.closures[o]
+	if !ok {
+		return
+	}
+	key, ok := u.litKeys[lit]
+	if !ok {
+		return
+	}
+	ct := u.eng.lookupContract(u.pkg.PkgPath, key)
+	if ct == nil || !ct.Pure {
+		return
+	}
+	if _, done := st.ghost["fv:"+v.T]; done {
+		return
+	}
+	st.ghost["fv:"+v.T] = Val{T: "true", So: "Bool"}
+	sig, ok := o.Type().Underlying().(*types.Signature)
+	if !ok {
+		return
+	}
+	name, sorts, rs, ok := u.applyFn(sig)
+	if !ok {
+		return
+	}
+	var xs []Val
+	var binders []string
+	ts := []string{v.T}
+	for i := 0; i < sig.Params().Len(); i++ {
+		u.nfresh++
+		n := "x!cv" + strconv.Itoa(u.nfresh)
+		xs = append(xs, Val{T: n, Ty: sig.Params().At(i).Type(), So: sorts[i+1]})
+		binders = append(binders, "("+n+" "+sorts[i+1]+")")
+		ts = append(ts, n)
+	}
+	lhs := Val{T: app(name, ts...), Ty: sig.Results().At(0).Type(), So: rs}
+	env := u.calleeEnv(st, st, ct, u.pkg.PkgPath, sig, sig, nil, xs, []Val{lhs})
+	env.scope = u.info.Scopes[lit.Type]
+	env.pos = lit.Body.Lbrace + 1
+	var pre, post []string
+	for _, x := range xs {
+		if inv := u.typeInv(x); inv != "true" {
+			pre = append(pre, inv)
+		}
+	}
+	for _, r := range ct.Requires {
+		pre = append(pre, env.evalBool(r.Expr))
+	}
+	for _, e := range ct.Ensures {
+		post = append(post, env.evalBool(e.Expr))
+	}
+	u.usedContracts[u.pkg.PkgPath+"."+key] = true
+	body := sImp(sAnd(pre...), sAnd(post...))
+	if len(binders) == 0 {
+		st.assume(body)
+		return
+	}
+	st.assume("(forall (" + strings.Join(binders, " ") + ") (! " + body + " :pattern (" + lhs.T + ")))")
+}
